@@ -18,6 +18,7 @@ import (
 	"github.com/projecteru2/core/types"
 
 	"go.etcd.io/etcd/api/v3/mvccpb"
+	"go.etcd.io/etcd/api/v3/v3rpc/rpctypes"
 	"go.etcd.io/etcd/client/pkg/v3/transport"
 	clientv3 "go.etcd.io/etcd/client/v3"
 	"go.etcd.io/etcd/client/v3/namespace"
@@ -370,6 +371,11 @@ func (e *ETCD) bindStatusWithTTL(ctx context.Context, entityKey, statusKey, stat
 	}
 
 	_, err = e.cliv3.KeepAliveOnce(ctx, origLeaseID)
+	if errors.Is(err, rpctypes.ErrLeaseNotFound) {
+		// The old lease expired between the transaction and the keepalive, the
+		// status went away with it: report it afresh instead of failing.
+		return e.bindStatusWithTTL(ctx, entityKey, statusKey, statusValue, ttl)
+	}
 	return err
 }
 
